@@ -143,6 +143,9 @@ func DistMatrix(al align.Alignment, weights []float64, model DistModel, range1Mi
 		outmatrix[i] = make([]float64, al.NbSequences())
 	}
 
+	// Errors of the pair producer and of the workers are kept apart from
+	// the returned error, which is only set once all goroutines are done
+	var perr, werr error
 	go func() {
 		defer close(distchan)
 		var seq1, seq2 []uint8
@@ -151,24 +154,24 @@ func DistMatrix(al align.Alignment, weights []float64, model DistModel, range1Mi
 				range1Max = al.NbSequences() - 1
 			}
 			if range1Min > range1Max {
-				err = fmt.Errorf("range 1 min is greater than range 1 max")
+				perr = fmt.Errorf("range 1 min is greater than range 1 max")
 				return
 			}
 			if range2Max >= al.NbSequences() {
 				range2Max = al.NbSequences() - 1
 			}
 			if range2Min > range2Max {
-				err = fmt.Errorf("range 2 min is greater than range 2 max")
+				perr = fmt.Errorf("range 2 min is greater than range 2 max")
 				return
 			}
 
 			for i := range1Min; i <= range1Max; i++ {
-				if seq1, err = model.Sequence(i); err != nil {
+				if seq1, perr = model.Sequence(i); perr != nil {
 					return
 				}
 				for j := range2Min; j <= range2Max; j++ {
 					if j != i {
-						if seq2, err = model.Sequence(j); err != nil {
+						if seq2, perr = model.Sequence(j); perr != nil {
 							return
 						}
 						distchan <- seqpairdist{i, j, seq1, seq2, model, weights}
@@ -177,11 +180,11 @@ func DistMatrix(al align.Alignment, weights []float64, model DistModel, range1Mi
 			}
 		} else {
 			for i := 0; i < al.NbSequences(); i++ {
-				if seq1, err = model.Sequence(i); err != nil {
+				if seq1, perr = model.Sequence(i); perr != nil {
 					return
 				}
 				for j := i + 1; j < al.NbSequences(); j++ {
-					if seq2, err = model.Sequence(j); err != nil {
+					if seq2, perr = model.Sequence(j); perr != nil {
 						return
 					}
 					distchan <- seqpairdist{i, j, seq1, seq2, model, weights}
@@ -189,22 +192,29 @@ func DistMatrix(al align.Alignment, weights []float64, model DistModel, range1Mi
 			}
 		}
 	}()
-	if err != nil {
-		return
-	}
 
 	var wg sync.WaitGroup
 	max := 0.0
 	for cpu := 0; cpu < cpus; cpu++ {
 		wg.Add(1)
 		go func() {
+			defer wg.Done()
 			for sp := range distchan {
 				if sp.i == sp.j {
 					outmatrix[sp.i][sp.i] = 0
 				} else {
-					if outmatrix[sp.i][sp.j], err = model.Distance(sp.seq1, sp.seq2, sp.weights); err != nil {
-						return
+					d, derr := model.Distance(sp.seq1, sp.seq2, sp.weights)
+					if derr != nil {
+						// The first error is kept, remaining pairs are consumed
+						// so that the producer is never left blocked
+						mux.Lock()
+						if werr == nil {
+							werr = derr
+						}
+						mux.Unlock()
+						continue
 					}
+					outmatrix[sp.i][sp.j] = d
 					outmatrix[sp.j][sp.i] = outmatrix[sp.i][sp.j]
 					mux.Lock()
 					if outmatrix[sp.i][sp.j] < 0 || outmatrix[sp.i][sp.j] == math.Inf(1) || outmatrix[sp.i][sp.j] > NT_DIST_OVER {
@@ -215,10 +225,17 @@ func DistMatrix(al align.Alignment, weights []float64, model DistModel, range1Mi
 					mux.Unlock()
 				}
 			}
-			wg.Done()
 		}()
 	}
 	wg.Wait()
+	if perr != nil {
+		err = perr
+		return
+	}
+	if werr != nil {
+		err = werr
+		return
+	}
 
 	// Distances that could not be computed are replaced by twice the
 	// maximum distance, or left undefined if no distance is positive
